@@ -1,11 +1,13 @@
 (** C16 — a time value denotes the same instant on every path.
     This file contains only the property theorems, each closed by [exact],
-    with [Print Assumptions] beneath. Models: Model/Time.v, Model/TimePrint.v (printers), Base/Civil.v;
-    proofs: Proofs/TimeProofs.v, Proofs/CivilProofs.v, Proofs/TimeIsoProofs.v. *)
+    with [Print Assumptions] beneath. Models: Model/Time.v, Model/TimePrint.v (printers), Model/TimeSites.v (call sites),
+    Base/Civil.v; proofs: Proofs/TimeProofs.v, Proofs/CivilProofs.v, Proofs/TimeIsoProofs.v,
+    Proofs/TimeSitesProofs.v. *)
 From Coq Require Import ZArith.
 From Coq Require Import NArith List Bool.
-From Snel Require Import Base.Bytes Base.Civil Model.Time Model.TimePrint
-                         Proofs.TimeProofs Proofs.CivilProofs Proofs.TimeIsoProofs.
+From Snel Require Import Base.Bytes Base.Civil Model.Time Model.TimePrint Model.TimeSites
+                         Proofs.TimeProofs Proofs.CivilProofs Proofs.TimeIsoProofs Proofs.TimeSitesProofs.
+Import ListNotations.
 Open Scope Z_scope.
 
 (** Integer spellings (seconds / ms / µs / ns inside their digit bands) of the
@@ -126,3 +128,94 @@ Theorem C16_date_string_agree : forall y m d,
   parse_str_to_epoch_seconds (print_date y m d) = Some (days_from_civil y m d * 86400).
 Proof. exact date_string_agree. Qed.
 Print Assumptions C16_date_string_agree.
+
+(** ---- the same instant on every path: the call sites (Model/TimeSites.v) ---- *)
+
+(** For every string literal, the payload normaliser, the WHERE row filter, the SINCE row
+    filter, the planner's literal rewriting, the zone pruner and the materialised-query
+    SINCE comparison read the same second — the pruner and the materialiser clamp it at 0
+    (class NegativeInstantClampedByPruner).  A literal no parser accepts is an error for the
+    payload, a string condition for WHERE, ignored for SINCE, left alone by the planner, and
+    0 for the pruner unless it is a 20-digit number that fits u64, which wraps negative
+    (class UnparsableSinceU64WrapsNegative). *)
+Theorem C16_sites_agree : forall (s : bytes) (ft : ftype),
+  temporal_ft ft ->
+  match parse_str_to_epoch_seconds s with
+  | Some z =>
+      site_payload ft (Some (TStr s)) = PNum z
+      /\ site_where (TStr s) = CNum z
+      /\ site_since_row s = SinceNum z
+      /\ site_filter ft (TStr s) = SInt z
+      /\ pruner_ts (site_since_filter s) = Z.max z 0
+      /\ pruner_ts (site_filter ft (TStr s)) = Z.max z 0
+      /\ parse_since_epoch s = Some (Z.max z 0)
+  | None =>
+      site_payload ft (Some (TStr s)) = PErr
+      /\ site_where (TStr s) = CStr
+      /\ site_since_row s = SinceIgnored
+      /\ site_filter ft (TStr s) = SUtf8 s
+      /\ (pruner_ts (SUtf8 s) = 0 \/ wrap_i64 (pruner_ts (SUtf8 s)) < 0)
+  end.
+Proof. exact sites_agree. Qed.
+Print Assumptions C16_sites_agree.
+
+Theorem C16_sites_agree_nonneg : forall s ft z,
+  temporal_ft ft -> parse_str_to_epoch_seconds s = Some z -> 0 <= z ->
+  site_payload ft (Some (TStr s)) = PNum z
+  /\ site_where (TStr s) = CNum z
+  /\ site_since_row s = SinceNum z
+  /\ site_filter ft (TStr s) = SInt z
+  /\ pruner_ts (SUtf8 s) = z
+  /\ pruner_ts (SInt z) = z
+  /\ parse_since_epoch s = Some z.
+Proof. exact sites_agree_nonneg. Qed.
+Print Assumptions C16_sites_agree_nonneg.
+
+(** The `parse::<u64>()` fall-back of the pruner can only produce values that wrap negative. *)
+Theorem C16_u64_fallback_wraps_negative : forall s u,
+  parse_str_to_epoch_seconds s = None -> parse_u64_str s = Some u ->
+  10 ^ 19 <= u <= u64_max /\ wrap_i64 u < 0.
+Proof. exact u64_fallback_wraps_negative. Qed.
+Print Assumptions C16_u64_fallback_wraps_negative.
+
+(** Outside the known classes (literal instant and all stamps of the zone in [0, 2^32),
+    operator =, >, >=, <, <=) the zone pruner keeps every zone that holds an event whose
+    stored instant satisfies the comparison — over the artifacts the temporal builder writes. *)
+Theorem C16_prune_sound_outside_known : forall flag op v zones z t,
+  0 <= v < u32_mod ->
+  In z zones -> 0 <= zmin z -> zmax z < u32_mod ->
+  In t (z_ts z) -> cmp_holds op t v ->
+  exists ids, prune flag op (SInt v) zones = Some ids /\ In (z_id z) ids.
+Proof. exact prune_sound_in_range. Qed.
+Print Assumptions C16_prune_sound_outside_known.
+
+Theorem C16_prune_sound_literal : forall flag op s v zones z t,
+  parse_str_to_epoch_seconds s = Some v ->
+  0 <= v < u32_mod ->
+  In z zones -> 0 <= zmin z -> zmax z < u32_mod ->
+  In t (z_ts z) -> cmp_holds op t v ->
+  exists ids, prune flag op (SUtf8 s) zones = Some ids /\ In (z_id z) ids.
+Proof. exact prune_sound_literal. Qed.
+Print Assumptions C16_prune_sound_literal.
+
+(** ... and the pruner does lose matching zones in each known class (concrete witnesses). *)
+Theorem C16_prune_refuted :
+  (* PreEpochZoneNotInCalendar *)
+  prune false OEq (SInt 500) [mkZone 1 [0; 0]; mkZone 4 [-5; 500]] = Some []
+  (* NegativeInstantClampedByPruner *)
+  /\ prune false OGt (SInt (-1)) [mkZone 1 [0; 0]; mkZone 2 [10; 20]] = Some [2%N]
+  (* CalendarBucketWrapsAfter2106 *)
+  /\ prune false OGte (SInt 315532800) [mkZone 3 [4295399296; 4295399297]] = Some []
+  (* UnparsableSinceU64WrapsNegative *)
+  /\ (site_since_row [49;48;48;48;48;48;48;48;48;48;48;48;48;48;48;48;48;48;48;48]%N = SinceIgnored
+      /\ prune false OGte (SUtf8 [49;48;48;48;48;48;48;48;48;48;48;48;48;48;48;48;48;48;48;48]%N)
+           [mkZone 1 [0; 0]; mkZone 2 [10; 20]] = Some [])
+  (* TemporalNeqPrunesAllZones *)
+  /\ (forall flag sv zones, prune flag ONeq sv zones = None).
+Proof.
+  exact (conj (proj1 pre_epoch_zone_refuted)
+        (conj (proj1 (proj2 negative_literal_refuted))
+        (conj (proj1 bucket_wrap_refuted)
+        (conj unparsable_since_refuted neq_refuted)))).
+Qed.
+Print Assumptions C16_prune_refuted.
